@@ -377,6 +377,13 @@ def r7_relative_scheduling(ctx, cfg='A'):
 
 
 def run(ctx):
+    # (R8) events are handled in timestamp order only if the calendar's index grid and scan window agree: both in full resolution
+    # (shared with C01.R8)
+    from .C01 import r8_time_grid
+    r8_time_grid(ctx, rule='C02.R8')
+    # (R9) ... and only if the scan window is stepped, never repositioned, and the bound follows the popped event (shared with C01.R5)
+    from .C01 import r5_fetch_skeleton
+    r5_fetch_skeleton(ctx, rule='C02.R9')
     r6_bound_is_last_emitted(ctx)
     for cfg in [c for c in ('A', 'B') if c in ctx.progs]:
         r7_relative_scheduling(ctx, cfg)
